@@ -1,5 +1,6 @@
 SPECIFICATION MCSpec
 CONSTANTS Malformed = "ascoded"
+ ApiErr = "ascoded"
  Variant = "none"
  AltForks = {"altair", "electra"}
 INVARIANTS Safety Progress
